@@ -2423,7 +2423,13 @@ def preprocess_file(
     def_regexes = {}
     output_file = []
     def_cont_name = None
+    pp_cont = False
     for i, line in enumerate(contents_split):
+        # The continuation lines of a conditional belong to its first line
+        if pp_cont:
+            output_file.append("")
+            pp_cont = line.rstrip().endswith("\\")
+            continue
         # Handle multiline macro continuation
         if def_cont_name is not None:
             output_file.append("")
@@ -2439,6 +2445,12 @@ def preprocess_file(
         match = FRegex.PP_REGEX.match(line)
         if match:
             output_file.append(line)
+            # A directive continued with backslashes is one logical line
+            i_cont = i + 1
+            while line.rstrip().endswith("\\") and i_cont < len(contents_split):
+                pp_cont = True
+                line = line.rstrip()[:-1] + contents_split[i_cont]
+                i_cont += 1
             def_name = None
             if_start = False
             # Opening conditional statements
